@@ -768,6 +768,10 @@ class Interp:
                 return B.EXTERNAL[r.dotted]
             return r
 
+        ce = getattr(fr.module, "const_exprs", None) if fr.module is not None else None
+        if ce and name in ce:
+            # module-level display (dict / tuple / list / set) over names: a fresh value per use, evaluated in the module's own scope
+            return self.eval(ce[name], Frame(fr.module))
         if name in B.BUILTINS:
             return B.BUILTINS[name]
         self.unsupported(node, "unresolved name %s" % name)
